@@ -98,12 +98,61 @@ example : (normTmpl none [.str "y ", .strip true false (.var "a")]).map (fun e =
 
 /-! ### for expressions, tuples, objects (examples on the executable semantics) -/
 example : same (eval 6 [("nums", .tuple [.num 1, .num 2, .num 3])]
-    (.forT "v" (.var "nums") (.bin .mul (.var "v") (.num 10)) (some (.bin .ne (.var "v") (.num 2))))) (.ok (.tuple [.num 10, .num 30])) = true := by decide
+    (.forE none "v" (.var "nums") none (.bin .mul (.var "v") (.num 10)) (some (.bin .ne (.var "v") (.num 2))) false)) (.ok (.tuple [.num 10, .num 30])) = true := by decide
 example : same (eval 6 [] (.index (.tuple [.num 5, .num 6]) (.num 1))) (.ok (.num 6)) = true := by decide
 example : same (eval 6 [] (.attr (.obj [("b", .num 2), ("a", .num 1)]) "a")) (.ok (.num 1)) = true := by decide
 example : same (eval 5 [("t", .tuple [])] (.tmpl [.str "a", .var "t"])) (.err .str) = true := by decide
 example : same (eval 5 [] (.tmpl [.str "a", .null])) (.err .str) = true := by decide
 example : same (eval 5 [] (.cond (.bool false) (.index (.tuple []) (.num 3)) (.num 1))) (.ok (.num 1)) = true := by decide
 example : same (eval 5 [] (.cond (.bool false) (.bin .add (.index (.tuple []) (.num 3)) (.num 1)) (.bool true))) (.err .dyn) = true := by decide
+
+/-! ### splats -/
+
+/-- a splat of (untyped) null has no elements, whatever is applied to them -/
+theorem splat_of_null (f : Nat) (env : Env) (each : E) : eval (f + 2) env (.splat .null each) = .ok (.tuple []) := by
+  simp [eval]
+
+/-- a value that is not a sequence counts as a sequence of one: also an object and a map -/
+theorem splat_of_scalar (f : Nat) (env : Env) (n : Int) :
+    eval (f + 2) env (.splat (.num n) .anon) = .ok (.tuple [.num n]) := by
+  simp [eval, anonName, Res.isErr]
+
+example : same (eval 6 [("mp", .mapv [("a", .num 1), ("b", .num 2)])] (.splat (.var "mp") .anon))
+    (.ok (.tuple [.mapv [("a", .num 1), ("b", .num 2)]])) = true := by decide
+example : same (eval 6 [("mp", .mapv [("a", .num 1)])] (.splat (.var "mp") (.attr .anon "a"))) (.ok (.tuple [.num 1])) = true := by decide
+/-- over a sequence the traversal is applied to every element, in order; one failing element fails the splat -/
+example : same (eval 6 [("objs", .tuple [.obj [("a", .num 1)], .obj [("a", .num 2)]])] (.splat (.var "objs") (.attr .anon "a")))
+    (.ok (.tuple [.num 1, .num 2])) = true := by decide
+example : same (eval 6 [("objs", .tuple [.obj [("a", .num 1)], .obj [("b", .num 2)]])] (.splat (.var "objs") (.attr .anon "a")))
+    (.err .other) = true := by decide
+
+/-! ### for expressions: keys, filters, object results, grouping -/
+example : same (eval 6 [("o", .obj [("a", .num 1), ("b", .num 2)])]
+    (.forE (some "k") "v" (.var "o") none (.tuple [.var "k", .var "v"]) none false))
+    (.ok (.tuple [.tuple [.str "a", .num 1], .tuple [.str "b", .num 2]])) = true := by decide
+example : same (eval 6 [("nums", .tuple [.num 5, .num 6])]
+    (.forE (some "i") "v" (.var "nums") none (.bin .add (.var "i") (.var "v")) none false)) (.ok (.tuple [.num 5, .num 7])) = true := by decide
+/-- grouping collects the values of equal keys in iteration order; without it an equal key is an error -/
+example : same (eval 7 [("nums", .tuple [.num 1, .num 2, .num 3])]
+    (.forE none "v" (.var "nums") (some (.bin .mod (.var "v") (.num 2))) (.var "v") none true))
+    (.ok (.obj [("0", .tuple [.num 2]), ("1", .tuple [.num 1, .num 3])])) = true := by decide
+example : same (eval 7 [("nums", .tuple [.num 1, .num 2, .num 3])]
+    (.forE none "v" (.var "nums") (some (.bin .mod (.var "v") (.num 2))) (.var "v") none false)) (.err .dyn) = true := by decide
+/-- a null key, a null or non-boolean condition, iteration over null or a number: errors -/
+example : same (eval 6 [("nums", .tuple [.num 1])] (.forE none "v" (.var "nums") (some .null) (.var "v") none false)) (.err .dyn) = true := by decide
+example : same (eval 6 [("nums", .tuple [.num 1])] (.forE none "v" (.var "nums") none (.var "v") (some .null) false)) (.err .dyn) = true := by decide
+example : same (eval 6 [] (.forE none "v" .null none (.var "v") none false)) (.err .dyn) = true := by decide
+example : same (eval 6 [] (.forE none "v" (.num 3) none (.var "v") none false)) (.err .dyn) = true := by decide
+/-- a filtered-out element's body is not evaluated (its error does not count) -/
+example : same (eval 7 [("nums", .tuple [.num 1, .num 2])]
+    (.forE none "v" (.var "nums") none (.index (.tuple [.num 9]) (.bin .sub (.var "v") (.num 1))) (some (.bin .lt (.var "v") (.num 2))) false))
+    (.ok (.tuple [.num 9])) = true := by decide
+
+/-! ### template directives -/
+/-- `%{ for }`: the iteration results concatenated; a body that is one interpolation is still text -/
+example : same (eval 7 [("nums", .tuple [.num 1, .num 2])]
+    (.tmpl [.str "n:", .join (.forE none "v" (.var "nums") none (.tmplS [.var "v", .str ","]) none false)])) (.ok (.str "n:1,2,")) = true := by decide
+example : same (eval 7 [("b", .bool true)] (.tmplS [.cond (.var "b") (.tmplS [.var "b"]) (.str "")])) (.ok (.str "true")) = true := by decide
+example : same (eval 7 [("t", .tuple [.null])] (.join (.forE none "v" (.var "t") none (.var "v") none false))) (.err .str) = true := by decide
 
 end Havoc.C18
